@@ -183,8 +183,7 @@ theorem load_spec (limit : Nat) (fs : FS) (root : String) (c : Contrib)
     intro x hx
     induction hx with
     | base => intro _; exact hfin.root_mem
-    | step hp hq ih =>
-      rename_i u v
+    | @step u v hp hq ih =>
       intro hv
       have hu : (fs.get u).isSome := by
         cases e : fs.get u with
